@@ -15,6 +15,8 @@ class Ctx(object):
         self.mods = self.src.import_native()
         self.T = F.Tables(self.mods)
         self.E = Engine(self.src)
+        from pyvc import effects
+        effects.install(self.E)
         self.E.lower_hints = list(self.T.RELEASE_TYPES)
         self.rng = random.Random(run.seed)
         import contracts
